@@ -13,7 +13,7 @@ def fieldNames (fs : List (FieldInfo × Ty)) : List S := fs.map (fun (x : FieldI
 
 mutual
   /-- `HasTy p c s t`: plan `c` is a structural conversion from type `s` to type `t` (no custom function, no enum,
-      no constructor, no update, no `*T → U`, every list has its `make`, every target field has a same-named source) -/
+      no constructor, no update, every list has its `make`, every target field has a same-named source) -/
   inductive HasTy (p : Program) : Conv → Ty → Ty → Prop
     | identBasic {s t k} : under p.conv.env s = .basic k → under p.conv.env t = .basic k → HasTy p .ident s t
     | castBasic {s t k} : under p.conv.env s = .basic k → under p.conv.env t = .basic k → HasTy p (.cast .ident) s t
@@ -22,6 +22,8 @@ mutual
         HasTy p (.ptrPtr te inner) s t
     | tgtPtr {s t te inner} : (∀ e, under p.conv.env s ≠ .ptr e) → under p.conv.env t = .ptr te → HasTy p inner s te →
         HasTy p (.tgtPtr te inner) s t
+    | srcPtr {s t se inner} : under p.conv.env s = .ptr se → (∀ e, under p.conv.env t ≠ .ptr e) → HasTy p inner se t →
+        HasTy p (.srcPtr t inner) s t
     | slice {s t se te elem} : under p.conv.env s = .slice se → under p.conv.env t = .slice te → HasTy p elem se te →
         HasTy p (.list te true true elem) s t
     | array {s t n se te elem} : under p.conv.env s = .array n se → under p.conv.env t = .slice te → HasTy p elem se te →
